@@ -12,7 +12,8 @@ RULE = (
     "Hypothesis-generated EPR calls: role x API (create_keep[_with_info], create_measure, create_rsp, create_context, recv_context, recv_keep[_with_info], "
     "recv_measure, recv_rsp[_with_info]) x pairs 1..4 x time_unit (all members) / max_time x named bases / rotation triples "
     "0..31 / random-basis sets (all members, both sides) x socket ids x remote node x hardware {generic, NV} x sequential+"
-    "post-routine; responses with pairwise different field values.  Oracle: the LinkLayerCreate seen by a recording stack "
+    "post-routine; responses with pairwise different field values (small and large counters), native or as qlink-interface 1.0 objects (Bell state by enum or plain integer); "
+    "a quarter of the sockets served another connection with another node numbering before.  Oracle: the LinkLayerCreate seen by a recording stack "
     "equals the call's parameters field by field (documented defaults otherwise) and converts with request_to_qlink_1_0; "
     "result handle i reads response i.  Non-trivial = >=2 pairs or a non-default parameter; distinct by call tuple"
 )
@@ -83,7 +84,8 @@ def st_case(draw):
         if api in ("recv_keep", "recv_keep_with_info") and draw(st.integers(0, 4)) == 0:
             kw["sequential"] = True
     resp = []
-    base = draw(st.integers(1, 1000))
+    # (every field of a response is a 32-bit integer for the controller: large counters are as good as small ones)
+    base = draw(st.integers(1, 1000) | st.integers(1, 1000) | st.integers(1, 1000) | st.sampled_from([65500, 2**16, 2**20 + 5, 2**31 - 200]))
     for i in range(number):
         resp.append(
             {
@@ -98,6 +100,11 @@ def st_case(draw):
             }
         )
     case["responses"] = resp
+    # the responses may come as qlink-interface 1.0 objects (Bell state named with that package's enum, or a plain integer,
+    # which qlink_compat documents as passed through unchanged)
+    case["wire"] = draw(st.sampled_from([None, None, None, "qlink10", "qlink10-int"]))
+    # the socket object may have served another connection before, under another numbering of the nodes
+    case["reused_socket"] = draw(st.sampled_from([None, None, None, {"alice": 3, "bob": 7, "charlie": 1}]))
     # receiver side: the remote node may have started already, so all responses can reach the controller before the receive
     # instruction has run
     case["early"] = role == "recv" and draw(st.integers(0, 2)) == 0
@@ -146,6 +153,10 @@ def check(case) -> Dict[str, Any]:
     sock = EPRSocket(case["remote"], epr_socket_id=case["socket_id"], remote_epr_socket_id=case["remote_socket_id"])
     hw = NVHardwareConfig(5) if case["hardware"] == "nv" else GenericHardwareConfig(5)
     node_ids = case.get("node_ids") or {"alice": 0, "bob": 1, "charlie": 2}
+    if case.get("reused_socket"):
+        _c0, conn0 = sim.fresh(sim.TraceExecutor, network_stack_cls=net.ScriptedNetworkStack, epr_sockets=[sock], hardware_config=hw, max_qubits=5, node_ids=dict(case["reused_socket"]))
+        conn0.flush()
+        conn0.close()
     ctrl, conn = sim.fresh(sim.TraceExecutor, network_stack_cls=net.ScriptedNetworkStack, epr_sockets=[sock], hardware_config=hw, max_qubits=5, node_ids=node_ids)
     stack = ctrl.network_stack
     stack.purpose_offset = case.get("purpose_offset", 0)
@@ -217,6 +228,9 @@ def check(case) -> Dict[str, Any]:
         f = {k: v for k, v in r.items() if k != "bell_as_enum"}
         if r["bell_as_enum"]:
             f["bell_state"] = BellState(r["bell_state"])
+        if case.get("wire"):
+            f["as_qlink10"] = True
+            f["qlink10_int"] = case["wire"] == "qlink10-int"
         fields.append(f)
     stack.expect(role, tp, number, fields, remote_node_id=remote_id, purpose_id=purpose)
     if case.get("early") and role == "recv":
@@ -291,7 +305,24 @@ def check(case) -> Dict[str, Any]:
         if len(stack.requests) != (1 if before and before["api"].startswith("create") else 0):
             raise Failure(f"request-count:{api}", case, "receiver side sent a create request")
     # ------------------------------------------------ results
-    delivered = stack.delivered[n_before:]
+    def native_view(r):
+        """a qlink-interface 1.0 response, field by field, in the controller's own response type"""
+        if "type" in getattr(r, "_fields", ()):
+            return r
+        import qlink_interface as ql
+        from netqasm.qlink_compat import LinkLayerOKTypeK, LinkLayerOKTypeM, ReturnType
+
+        bs = r.bell_state
+        bs = BellState[bs.name] if isinstance(bs, ql.BellState) else BellState(int(bs))
+        if isinstance(r, ql.ResCreateAndKeep):
+            return LinkLayerOKTypeK(type=ReturnType.OK_K, create_id=r.create_id, logical_qubit_id=r.logical_qubit_id, directionality_flag=r.directionality_flag,
+                                    sequence_number=r.sequence_number, purpose_id=r.purpose_id, remote_node_id=r.remote_node_id, goodness=r.goodness,
+                                    goodness_time=r.time_of_goodness, bell_state=bs)
+        return LinkLayerOKTypeM(type=ReturnType.OK_M, create_id=r.create_id, measurement_outcome=r.measurement_outcome, measurement_basis=r.measurement_basis.value,
+                                directionality_flag=r.directionality_flag, sequence_number=r.sequence_number, purpose_id=r.purpose_id, remote_node_id=r.remote_node_id,
+                                goodness=r.goodness, bell_state=bs)
+
+    delivered = [native_view(r) for r in stack.delivered[n_before:]]
     if before:
         for i, r in enumerate(stack.delivered[:n_before]):
             h = before_result[i]
@@ -384,7 +415,7 @@ def shard(ctx: Ctx) -> None:
             stt.evaluations += 1
             return
         nt = case["number"] >= 2 or bool(case["kw"])
-        labels = [case["api"], f"pairs:{case['number']}", case["hardware"]] + [f"kw:{k}" for k in case["kw"]] + (["deprecated-alias"] if case.get("alias") else []) + (["after:" + case["before"]["api"]] if case.get("before") else []) + (["responses-before-the-receive-instruction"] if case.get("early") else [])
+        labels = [case["api"], f"pairs:{case['number']}", case["hardware"]] + [f"kw:{k}" for k in case["kw"]] + (["deprecated-alias"] if case.get("alias") else []) + (["after:" + case["before"]["api"]] if case.get("before") else []) + (["responses-before-the-receive-instruction"] if case.get("early") else []) + (["wire:" + case["wire"]] if case.get("wire") else []) + (["socket-served-another-connection-before"] if case.get("reused_socket") else [])
         stt.case({k: v for k, v in case.items()}, nt, labels, sample={k: case[k] for k in ("role", "api", "number", "kw", "hardware")})
 
     ctx.search(st_case(), body, n, name="c11")
